@@ -37,6 +37,12 @@ func c02(c *Ctx) {
 	c10invalidAs(c, t, "C02.control-shape")
 	r.Rule("C02.prepared-payload", "a PreparedMessage's payload snapshot is the application's bytes: the rendering it is cut from is a single frame (same rule as C19.single-frame)")
 	preparedSingleFrame(c, "C02.prepared-payload")
+	r.Rule("C02.deflater-exclusive", "a compressor returned to its pool is forgotten by the wrapper in the same step (never returned twice), so two connections never deflate into one flate.Writer and mix their messages (same rule as C11.pool-objects)")
+	if c.poolTypestate("C02.deflater-exclusive", "(*flateWriteWrapper).Close") < 1 {
+		r.Fail("C02.deflater-exclusive", "(*flateWriteWrapper).Close", "pool-put-site", c.fn("(*flateWriteWrapper).Close").Pos(), "no Put of the deflater found")
+	}
+	r.Rule("C02.payload-complete", "every byte the application handed to Write / WriteString / ReadFrom / WriteMessage is in the frame: the amount copied into writeBuf is the amount added to w.pos on every path, including reads that return data together with io.EOF (same rule as C01.cursor-siblings)")
+	w.cursorSiblings("C02.payload-complete")
 	r.Rule("C02.whole-frames", "the stream stays a sequence of whole frames: every transport write happens inside the Conn.mu critical section (no interleaving of two frames) after re-reading the sticky write error inside the lock (no frame is appended after a partially written one) — same rule as C09.protocol / C10.fail-stop")
 	t.classify("C02.whole-frames")
 	for _, fn := range c.P.FuncList {
